@@ -119,8 +119,10 @@ def run_makezip(scenario, D, IN):
             for fn in files:
                 with open(os.path.join(d, fn), "rb") as f:
                     data = f.read()
-                with open(os.path.join(fsdir, os.path.relpath(d, srcdir), fn), "wb") as f:
+                dst = os.path.join(fsdir, os.path.relpath(d, srcdir), fn)
+                with open(dst, "wb") as f:
                     f.write(data)
+                os.utime(dst, (1600000000, 1600000000))      # zip members carry the mtime: keep runs comparable
     buildzip.make_nuwiki = fake_make_nuwiki
 
     class Pod:
